@@ -240,3 +240,32 @@ class patched_source(object):
     def __exit__(self, *a):
         if self.saved is None: Module._cache.pop((REPO, self.relpath), None)
         else: Module._cache[(REPO, self.relpath)] = self.saved
+
+
+def eager_generator(fi):
+    """the eager view of a generator function under contract: `yield e` becomes `yielded.append(e)` on a list created on entry and returned on exit.
+    What is verified is the sequence of values the generator yields when it is consumed to the end; laziness (evaluation interleaved with the
+    consumer, an exception surfacing at the consuming loop instead of at the call) is not modelled -- recorded as an assumption by the caller."""
+    src = ast.unparse(fi.node)
+    node = ast.parse(src).body[0]
+    class Y(ast.NodeTransformer):
+        def visit_Expr(self_, n):
+            if isinstance(n.value, ast.Yield):
+                return ast.copy_location(ast.Expr(ast.Call(ast.Attribute(ast.Name('yielded', ast.Load()), 'append', ast.Load()), [n.value.value], [])), n)
+            return n
+        def visit_FunctionDef(self_, n):
+            if n is not node: return n          # nested functions keep their own yields
+            self_.generic_visit(n); return n
+    Y().visit(node)
+    if any(isinstance(n, (ast.Yield, ast.YieldFrom)) for n in ast.walk(node)): raise ValueError('generator shape of %s: a yield that is not a statement' % fi.qualname)
+    doc = [node.body[0]] if node.body and isinstance(node.body[0], ast.Expr) and isinstance(node.body[0].value, ast.Constant) and isinstance(node.body[0].value.value, str) else []
+    node.body = doc + [ast.Assign([ast.Name('yielded', ast.Store())], ast.List([], ast.Load()))] + node.body[len(doc):] + [ast.Return(ast.Name('yielded', ast.Load()))]
+    ast.fix_missing_locations(node)
+    for n in ast.walk(node):
+        if hasattr(n, 'lineno'): n.lineno = fi.node.lineno; n.end_lineno = fi.node.end_lineno
+    m = FuncInfo.__new__(FuncInfo)
+    m.__dict__.update(fi.__dict__)
+    m.node = node
+    m.is_generator = False
+    m.body = m._clean(node.body, top=True)
+    return m
